@@ -934,3 +934,84 @@ def ex_smooth(c):
 
 
 EXECUTORS.update({"noise": ex_noise, "smooth": ex_smooth})
+
+
+# ---------------------------------------------------------------------------------------------- C09 shape / aliasing abstraction
+def shape_concretize(act, w, grids):
+    """A concrete call satisfying the abstract label, chosen from the object's current state."""
+    k = act["k"]
+    x = np.asarray(w.get()[0], dtype=float)
+    if k == "append":
+        return lambda: w.append_one_sample(make_periodic=True)
+    if k in ("shift_x", "shift_y"):
+        return lambda: getattr(w, k)(1.5)
+    if k in ("scale_x", "scale_y"):
+        return lambda: getattr(w, k)(2.0)
+    if k in ("normalize_x", "normalize_y"):
+        return lambda: getattr(w, k)(-1.0, 3.0)
+    if k == "repeat":
+        return lambda: w.repeat(act["r"])
+    if k == "truncate":
+        if act["by"] == "index":
+            return lambda: w.truncate_by_index(act["drop"], None)
+        return lambda: w.truncate_by_value(float(x[act["drop"]]), float(x[-1]))
+    if k == "restore_original":
+        return lambda: w.restore_original()
+    if k == "recreate":
+        cls = {"window": rfa_mod.ExpAdaptiveRFA, "piecewise": rfa_mod.PiecewiseConstantRFA, "spline": rfa_mod.CubicSplineRFA}[act["strat"]]
+        return lambda: w.recreate_from_average(act["n"], rfa_class=cls)
+    if k == "integral_match":
+        return lambda: w.integral_match()
+    if k == "smooth":
+        return lambda: w.smooth(0.5)
+    if k == "noise":
+        return lambda: w.noise(20.0)
+    if k == "trend":
+        return lambda: w.trend(lambda t: 0.5 * t + 1.0)
+    if k == "read":
+        return lambda: (w.get(), w.slice_by_index(1, 3), len(w), w.to_2d_array())
+    if k == "interpolate_n":
+        return lambda: w.interpolate(n=act["m"], method=act["method"])
+    if k == "interpolate_grid":
+        q = np.linspace(x[0], x[-1], act["m"])
+        q[0], q[-1] = x[0], x[-1]
+        g = q if act["grid"] == "array" else q.tolist()
+        if act["grid"] == "array":
+            grids.append(g)
+        return lambda: w.interpolate(new_x=g)
+    raise KeyError(k)
+
+
+def ex_wshape(c):
+    base_x = np.array([0.0, 1.0, 2.5, 3.0, 4.5, 6.0])
+    base_y = np.array([1.0, 3.0, -2.0, 0.5, 0.5, 2.0])
+    cx, cy = (base_x.copy(), base_y.copy()) if c["arr"] else (base_x.tolist(), base_y.tolist())
+    grids = []
+    w = Weaver(cx, cy)
+    np.random.seed(7)
+
+    def bufs():
+        b = {"cx": cx, "cy": cy}
+        if grids:
+            b["grid"] = grids[-1]
+        return b
+
+    def digest(v):
+        return v.tobytes() if isinstance(v, np.ndarray) else repr(v)
+    steps = []
+    for act in c["acts"]:
+        f = guarded(lambda: shape_concretize(act, w, grids))[1]
+        before = {k: digest(v) for k, v in bufs().items()}
+        oc, _ = guarded(f) if f else ("unconcretizable", None)
+        after = bufs()
+        wrote = sorted(k for k in before if digest(after[k]) != before[k])
+        o = guarded(lambda: wobs(w))[1]
+        gx, gy = w.get()
+        def shared(a):
+            return sorted(k for k, v in after.items() if isinstance(v, np.ndarray) and isinstance(a, np.ndarray) and np.shares_memory(a, v))
+        steps.append({"act": act, "outcome": oc, "n": len(gx) if hasattr(gx, "__len__") else -1, "r": len(w.get_reference()[0]), "o": len(w.get_original()[0]),
+                      "sx": shared(gx), "sy": shared(gy), "wrote": wrote, "kinds": o["kinds"] if o else "unobservable"})
+    return {"fn": "wshape", "arr": c["arr"], "steps": steps, "meta": {"case": c}}
+
+
+EXECUTORS.update({"wshape": ex_wshape})
